@@ -43,3 +43,24 @@ package urltree
 //@   ensures[exact-node-wins] nw == len(splitURL) && path[nw].Value != nil ==> result.match && result.node == path[nw]
 //@   ensures[deepest-wildcard-is-the-fall-back] result.match && !(nw == len(splitURL) && path[nw].Value != nil) ==> result.node != nil && exists(d, 0, nw + 1, result.node == path[d].WildcardChild && forall(j, d + 1, nw + 1, path[j].WildcardChild == nil))
 //@   ensures[no-match-without-a-wildcard] !result.match && !(nw < len(splitURL) && strings.HasPrefix(splitURL[nw].Value, "{") && strings.HasSuffix(splitURL[nw].Value, "}")) ==> forall(j, 0, nw + 1, path[j].WildcardChild == nil)
+
+// The flow traversal (filter tree, C03) walks the same way and collects, in order, the values of the wildcard children
+// it passes and finally the value of the node it reached - the URL's OWN node only if every part of the URL was walked.
+// fnode[r]: the node whose value is the r-th collected flow (ghost witness).
+//@ func lookupFlow
+//@   prop C03
+//@   instantiate T=int
+//@   ghostlocal path gmap[int]*Node[int]
+//@   ghostlocal fnode gmap[int]*Node[int]
+//@   requires urlTree != nil && urlTree.Root != nil && allocated(urlTree.Root) && nodesOK()
+//@   modifies nothing
+//@   on entry do path[0] = urlTree.Root
+//@   loop 1 modifies path, fnode
+//@   loop 1 do path[idx1] = currentNode; fnode[len(flows) - 1] = ite(path[idx1-1].WildcardChild != nil && path[idx1-1].WildcardChild.Value != nil, path[idx1-1].WildcardChild, fnode[len(flows) - 1])
+//@   loop 1 invariant[on-the-path] walkedParts == idx1 && path[0] == urlTree.Root && currentNode == path[idx1] && currentNode != nil && allocated(currentNode)
+//@   loop 1 invariant[literal-then-parameter] forall(j, 0, idx1, path[j] != nil && allocated(path[j]) && stepTo(path[j], splitURL[j], path[j+1]))
+//@   loop 1 invariant[only-wildcards-on-the-way] forall(r, 0, len(flows), fnode[r] != nil && fnode[r].Value != nil && flows[r] == *fnode[r].Value && exists(j, 0, idx1, fnode[r] == path[j].WildcardChild))
+//@   ensures[walk] 0 <= walkedParts && walkedParts <= len(splitURL) && forall(j, 0, walkedParts, stepTo(path[j], splitURL[j], path[j+1]))
+//@   ensures[stops-only-without-a-child] walkedParts < len(splitURL) ==> !litStep(path[walkedParts], splitURL[walkedParts]) && !parStep(path[walkedParts], splitURL[walkedParts])
+//@   ensures[own-node-included] walkedParts == len(splitURL) && path[walkedParts].Value != nil && path[walkedParts].WildcardChild == nil ==> len(result.found) > 0 && result.found[len(result.found) - 1] == *path[walkedParts].Value
+//@   ensures[own-node-only-when-the-whole-url-was-walked] forall(r, 0, len(result.found), exists(j, 0, walkedParts + 1, path[j].WildcardChild != nil && path[j].WildcardChild.Value != nil && result.found[r] == *path[j].WildcardChild.Value) || (walkedParts == len(splitURL) && path[walkedParts].Value != nil && result.found[r] == *path[walkedParts].Value))
